@@ -5,9 +5,9 @@
 #include <sys/stat.h>
 
 enum { SW_LOCALS, SW_BLOCKLOCALS, SW_LIT, SW_STRINGS, SW_FUNCS, SW_GLOBALS, SW_INHERITS, SW_CLASSES, SW_MEMBERS, SW_SWITCH, SW_INCDEPTH, SW_IFDEPTH, SW_EXPAND, SW_LINELEN, SW_NEST, SW_LITERAL,
-  SW_CODESIZE, SW_OVERRIDE, SW_MANYLITS, SW_SWITCHSTR, SW_ABORT, SW_NFAM };
+  SW_CODESIZE, SW_OVERRIDE, SW_MANYLITS, SW_SWITCHSTR, SW_ABORT, SW_ROLES, SW_NFAM };
 static const char *famname[] = { "locals", "blocklocals", "funlit", "strings", "functions", "globals", "inherits", "classes", "members", "switch", "include-depth", "if-depth",
-  "macro-expansions", "line-length", "nesting", "literal", "code-size", "override", "many-funlits", "switch-string-sizes", "abort-inside-open-construct" };
+  "macro-expansions", "line-length", "nesting", "literal", "code-size", "override", "many-funlits", "switch-string-sizes", "abort-inside-open-construct", "name-roles" };
 typedef struct { int fam, a, b, c, d; } scase;
 static scase *cases; static long ncases, capcases;
 static void add (int fam, int a, int b, int c, int d) {
@@ -25,6 +25,11 @@ static void wfile (const char *rel, const char *text) {
   fputs (text, f);
   fclose (f);
 }
+
+/* names that are permanent identifiers (efuns, a simul_efun) and one that is not; every non-empty subset of the roles a
+ * name can have in one program: bit 0 inherited function, 1 prototype, 2 global variable, 3 class, 4 function, 5 argument, 6 local */
+static const char *ROLE_NAMES[] = { "time", "sizeof", "strlen", "sefun_add", "zork" };
+#define NROLE_NAMES 5
 
 static const char *LITERALS[] = { "0", "1", "2", "254", "255", "256", "257", "-1", "-2", "-254", "-255", "-256", "-257", "32767", "32768", "65535", "65536", "-32768", "-32769",
   "2147483646", "2147483647", "2147483648", "2147483649", "-2147483647", "-2147483648", "-2147483649", "4294967295", "4294967296", "9223372036854775806", "9223372036854775807",
@@ -49,6 +54,12 @@ void sweep_prepare (int thorough) {
     if (k) sb_printf (&t, "#include \"inc_%d.h\"\n", k - 1);
     sb_printf (&t, "int inc_var_%d;\n", k);
     snprintf (name, sizeof name, "c02/sw/inc_%d.h", k);
+    wfile (name, (char *) t.b);
+  }
+  for (int k = 0; k < NROLE_NAMES; k++) {
+    sb_reset (&t);
+    sb_printf (&t, "int %s() { return 11; }\nint other_%d() { return 12; }\n", ROLE_NAMES[k], k);
+    snprintf (name, sizeof name, "c02/sw/role_%s.c", ROLE_NAMES[k]);
     wfile (name, (char *) t.b);
   }
   for (int k = 0; k < 262; k++) {
@@ -112,6 +123,7 @@ void sweep_prepare (int thorough) {
   for (int k = 65533; k <= 65537; k++) add (SW_MANYLITS, k, 0, 0, 0);
   for (int k = 32766; k <= 32769; k++) add (SW_MANYLITS, k, 0, 0, 0);
   add (SW_MANYLITS, 1, 0, 0, 0); add (SW_MANYLITS, 300, 0, 0, 0);
+  for (int nm = 0; nm < NROLE_NAMES; nm++) for (int roles = 1; roles < 128; roles++) add (SW_ROLES, nm, roles, 0, 0);
   /* the compile is left before the lexer reaches the end of the file (a = how) while a construct is open (b = which) */
   for (int a = 0; a < 4; a++) for (int b = 0; b < 10; b++) add (SW_ABORT, a, b, 0, 0);
   /* string-switch tables are sorted by the labels' addresses: labels of very different lengths live far apart */
@@ -366,6 +378,23 @@ int sweep_gen (long idx, sb_t *o, char *desc, size_t dlen) {
       sb_puts (o, "  case \""); sb_printf (o, "k%d", j); repc (o, 'a' + j, lens[j]); sb_printf (o, "\": return %d;\n", j);
     }
     sb_puts (o, "  }\n  return -1;\n}\n");
+    break;
+  }
+  case SW_ROLES: {
+    const char *n = ROLE_NAMES[c.a]; int r = c.b;
+    sb_puts (o, "#pragma no_strict_types\n");
+    if (r & 1) sb_printf (o, "inherit \"/c02/sw/role_%s\";\n", n);
+    if (r & 2) sb_printf (o, "int %s();\n", n);
+    if (r & 4) sb_printf (o, "int %s;\n", n);
+    if (r & 8) sb_printf (o, "class %s { int member; }\n", n);
+    if (r & 16) sb_printf (o, "int %s() { return 1; }\n", n);
+    sb_puts (o, "int user(");
+    if (r & 32) sb_printf (o, "int %s", n);
+    sb_puts (o, ") {\n");
+    if (r & 64) sb_printf (o, "  int %s;\n", n);
+    sb_puts (o, "  return 0;\n}\nint tail() { return 2; }\n");
+    snprintf (desc, dlen, "name-roles %s:%s%s%s%s%s%s%s", n, r & 1 ? " inherited-function" : "", r & 2 ? " prototype" : "", r & 4 ? " global" : "", r & 8 ? " class" : "",
+              r & 16 ? " function" : "", r & 32 ? " argument" : "", r & 64 ? " local" : "");
     break;
   }
   case SW_ABORT: {
